@@ -17,7 +17,7 @@ class Unsupported(Exception):
     pass
 
 
-KEEP_DERIVES = ('Clone', 'Copy', 'PartialEq', 'Eq', 'PartialOrd', 'Ord')
+KEEP_DERIVES = ('Clone', 'Copy', 'PartialEq', 'Eq', 'PartialOrd', 'Ord', 'Default')
 DROP_ATTRS = re.compile(
     r'^[ \t]*#\[(?:inline[^\]]*|cold|must_use(?:\s*=\s*"[^"]*")?|allow\([^\]]*\)|strum\([^\]]*\)|serde\([^\]]*\)|'
     r'enumset\([^\]]*\)|doc[^\]]*|cfg\(not\(tarpaulin_include\)\)|cfg_attr\([^\]]*\)|non_exhaustive|repr\(transparent\))\][ \t]*\n', re.M)
@@ -95,7 +95,7 @@ class Unit:
 
     # ---------------------------------------------------------------- item emission
     def emit(self, rel, spec, rules=(), key_prefix='', only=None, skip=(), derive_drop=(), pub_fields=False,
-             pre=None):
+             pre=None, widen=True):
         """emit the item addressed by `spec` from file `rel`.  For impl/trait items every fn child is
         processed separately (rules + contract splice).  `only`/`skip`: restrict fn children by name.
         `pre`: optional function(text)->text applied to the whole item before anything else (for
@@ -109,9 +109,21 @@ class Unit:
             self.dropped['derive-replaced-by-trusted-spec:' + d] += 1
         if pub_fields:
             text = self._pub_fields(text)
+        if widen:
+            text = self._widen(text, it)
         if pre:
             text = pre(text)
         self.out.append(text.rstrip('\n') + '\n')
+
+    def _widen(self, text, it):
+        # private items become pub (Verus refuses private items in public specs); semantics of a single-file unit unchanged
+        def f(m):
+            self.dropped['visibility-widened'] += 1
+            return m.group(1) + 'pub ' + m.group(2)
+        text = re.sub(r'(?m)^()((?:unsafe |const )*(?:struct|enum|trait|fn|const|type|static) )', f, text)
+        if it.kind == 'impl' and ' for ' not in it.header:
+            text = re.sub(r'(?m)^(\t)((?:unsafe |const )*fn )', f, text)
+        return text
 
     def _pub_fields(self, text):
         # make struct fields public:  `\tname: Type,` at depth 1 of a struct body
@@ -156,7 +168,9 @@ class Unit:
         m = re.search(r'->\s*([^;{]+)$', body)
         if c.ret and m:
             body = body[:m.start()] + '-> (%s: %s)' % (c.ret, m.group(1).strip())
-        return body + '\n' + vc.render_clauses(c.clauses, '\t\t') + ';'
+        l0, l1 = ch.lines
+        self.fns.append((key, rel, l0, l1, True))
+        return '//@fn %s | %s:%d-%d\n%s\n%s;\n//@endfn\n' % (key, rel, l0, l1, body, vc.render_clauses(c.clauses, '\t\t'))
 
     def _emit_fn(self, src, it, rel, key, rules):
         l0, l1 = it.lines
@@ -244,10 +258,16 @@ class Unit:
                     tag = '%s#loop%d' % (key, lc.ordinal)
                     self.sentinels.append(tag)
                     sent = '\n\t\tassert(false); /*@S:%s*/' % tag
-                edits.append((bopen, '\n' + vc.render_clauses(lc.clauses, '\t\t') + '\n', sent))
-            for off, ins, sent in sorted(edits, reverse=True):
+                edits.append((bopen, '\n' + vc.render_clauses(lc.clauses, '\t\t') + '\n', sent, kw, lc.bind))
+            for off, ins, sent, kw, bind in sorted(edits, reverse=True):
                 # strip whitespace before '{' so that clauses sit between header and brace
                 body = body[:off].rstrip() + ins + '\t\t{' + sent + body[off + 1:]
+                if bind:
+                    # `for x in EXPR` -> `for x in <bind>: EXPR` (Verus syntax naming the ghost iterator)
+                    m = re.compile(r'\bin\s+').search(body, kw)
+                    if not m or m.start() > off:
+                        raise LostAnchor('%s: cannot bind iterator of loop' % key)
+                    body = body[:m.end()] + bind + ': ' + body[m.end():]
         for where_, nth, anchor, lines in c.inserts:
             blines = body.split('\n')
             idxs = [i for i, l in enumerate(blines) if l.strip() == anchor]
